@@ -3,6 +3,8 @@
 # confirm the test suite still passes, run the given checks against it, undo.
 WT=${SEED_WT:-/tmp/wt/fix}
 patch="$1"; shift
+if [ -d "$patch" ]; then if [ -f "$patch/patch_rebased.diff" ]; then patch="$patch/patch_rebased.diff"; else patch="$patch/patch.diff"; fi; fi
+case "$patch" in /*) ;; *) patch="$(pwd)/$patch";; esac
 [ -d "$WT" ] || git -C /repo worktree add -q --detach "$WT" HEAD
 git -C "$WT" reset -q --hard; git -C "$WT" checkout -q --detach main 2>/dev/null
 if ! git -C "$WT" apply -3 "$patch" 2>/tmp/wt/apply.err; then echo "PATCH DOES NOT APPLY: $(head -3 /tmp/wt/apply.err)"; git -C "$WT" reset -q --hard main; exit 2; fi
